@@ -25,7 +25,15 @@ def _specs():
     from transactron.lib import BasicFifo, FIFO, Forwarder, Pipe, Semaphore, Stack
     from transactron.lib.allocators import CircularAllocator, PreservedOrderAllocator, PriorityEncoderAllocator
     from transactron.lib.fifo import WideFifo
+    from transactron.lib.storage import AsyncMemoryBank
     from .comp import models as M
+
+    def amem(inst, a, kw):
+        from amaranth import Shape
+        from amaranth.lib import data
+        if isinstance(kw["shape"], (data.Layout, type)) and not isinstance(kw["shape"], int):
+            raise ValueError("structured rows are not watched passively")
+        return M.AsyncMemM(kw["depth"], Shape.cast(kw["shape"]).width, kw.get("read_ports", 1), kw.get("write_ports", 1), kw.get("granularity"))
 
     def circ(inst, a, kw):
         return M.CircM(inst.entries, inst.max_alloc, inst.max_free, kw.get("with_validate_arguments", True))
@@ -56,6 +64,7 @@ def _specs():
         PreservedOrderAllocator: lambda inst, a, kw: M.POAllocM(inst.entries),
         PriorityEncoderAllocator: pe,
         WideFifo: wide,
+        AsyncMemoryBank: amem,
     }
 
 
